@@ -1,4 +1,5 @@
 import Poupool.Properties.C07
+import Poupool.Model.Cover
 import Poupool.Properties.C06
 /-!
 # C12  Mode requests honour their preconditions; cover and pumps are sequenced
@@ -68,5 +69,21 @@ def coverStopped : Bool :=
   C07.emits (names.idxOf "tell:Arduino.cover_stop") (filtrationSafetyDesc.callbacks.getD Filtration.cb_on_exit_closing .skip)
 
 theorem cover_stopped_when_phase_left : coverStopped = true := by decide +kernel
+
+/-! ## the cover polls (Model/Cover.lean, exhaustively compared with the real methods) -/
+open Poupool.Cover in
+/-- `opened` is only ever requested when the cover reported exactly 100 % -/
+theorem opened_only_at_100 (p : Int) : openingPoll p ≠ .poll → p = 100 := by
+  unfold openingPoll; split <;> simp_all
+
+open Poupool.Cover in
+/-- `closed` is only ever requested when the reported position is at or below the configured eco position -/
+theorem closed_only_at_eco_position (p e : Int) : closingPoll p e ≠ .poll → p ≤ e := by
+  unfold closingPoll; split <;> simp_all
+
+open Poupool.Cover in
+/-- the published decade is a multiple of ten between 0 and 100 for every position the firmware can report -/
+theorem decade_range (p : Int) (h0 : 0 ≤ p) (h1 : p ≤ 100) : 0 ≤ decade p ∧ decade p ≤ 100 ∧ decade p % 10 = 0 := by
+  unfold decade; omega
 
 end Poupool.C12
